@@ -323,7 +323,7 @@ func checkC19(cx *Ctx, r *Report) {
 	} else {
 		r.Fail("R-GUARD", "dynamicIssuer", "", "anchor not found")
 	}
-	r.Min("R-VFG", 8)
+	r.Min("R-VFG", 5)
 }
 
 // checkIssuerSchemeFlag: the flag that selects the scheme of a derived issuer is the configured one, unchanged, at
